@@ -4,6 +4,8 @@
      in : "<tokens...>"            one op            out: "= <k>" newline first-line newline k extra lines
      in : "dump"                                      out: "= <k>" newline "dump" newline k node lines
      in : "reset"                                     out: "= 0" newline "reset"
+     in : "crash <tokens...>"     peek: the trees a kill during that op can leave (Model.step_crash); the session does not
+                                  advance.  out: "= <k>" newline "crash <n>" newline, then per state a line "state" + its node lines
    While evaluating, the model may ask for digests: out "?<algo> <hex>", in "<hex digest>". *)
 module M = Model
 
@@ -62,6 +64,15 @@ let () =
       if line = "reset" then begin st := M.sstate0; idx := 0; Hashtbl.reset memo; emit "reset" [] end
       else if line = "dump" then
         emit "dump" (List.map string_of_bytes (M.dump hash (M.s_fs !st)))
+      else if String.length line > 6 && String.sub line 0 6 = "crash " then begin
+        let toks = List.map bytes_of_string (String.split_on_char ' ' (String.sub line 6 (String.length line - 6))) in
+        match M.parse_op toks with
+        | None -> emit "parse-error" []
+        | Some o ->
+            let states = M.step_crash hash !st o (M.pseudo_now (n_of_int !idx)) in
+            let lines = List.concat_map (fun f -> "state" :: List.map string_of_bytes (M.dump hash f)) states in
+            emit (Printf.sprintf "crash %d" (List.length states)) lines
+      end
       else begin
         let toks = List.map bytes_of_string (String.split_on_char ' ' line) in
         match M.parse_op toks with
